@@ -40,3 +40,66 @@ Example sa_example :
   sa_check (Some [St 3; St 2]) (Some [St 3; St 2]) (Some [[0]; [2]; [1]]%Z) = NoFire /\
   sa_check (Some [Sy 0; St 2]) (Some [Sy 0; St 2]) (Some [[0]]%Z) = Raises.
 Proof. repeat split; reflexivity. Qed.
+
+(* --- ScatterAllDynamic ---------------------------------------------------------------------------------- *)
+Lemma Forall2_nth_error : forall (A B : Type) (R : A -> B -> Prop) l l' i d,
+  Forall2 R l l' -> nth_error l i = Some d -> exists x, nth_error l' i = Some x /\ R d x.
+Proof.
+  intros A B R l l' i d H. revert i. induction H as [|a b l l' Hab H IH]; intros [|i] Hn; cbn in *; try discriminate.
+  - inversion Hn; subst. eauto.
+  - apply IH. exact Hn.
+Qed.
+Lemma Forall2_len : forall (A B : Type) (R : A -> B -> Prop) l l', Forall2 R l l' -> length l = length l'.
+Proof. intros A B R l l' H. induction H; cbn; congruence. Qed.
+
+Lemma py_index_denotes : forall val (ds : list dim) (sh : list Z) a d,
+  Forall2 (dim_denotes val) ds sh -> py_index ds a = Some d -> exists x, py_index sh a = Some x /\ dim_denotes val d x.
+Proof.
+  intros val ds sh a d HF Hp. unfold py_index in *. rewrite <- (Forall2_len _ _ _ _ _ HF).
+  destruct ((0 <=? a)%Z && (a <? Z.of_nat (length ds))%Z); [eapply Forall2_nth_error; eauto|].
+  destruct ((- Z.of_nat (length ds) <=? a)%Z && (a <? 0)%Z); [eapply Forall2_nth_error; eauto|discriminate].
+Qed.
+
+Lemma dim_eqb_denotes : forall val d t x y, dim_eqb d t = true -> dim_denotes val d x -> dim_denotes val t y -> x = y.
+Proof.
+  intros val [v|k|] [w|m|] x y He Hx Hy; cbn in *; try discriminate.
+  - apply Z.eqb_eq in He. congruence.
+  - apply Nat.eqb_eq in He. congruence.
+Qed.
+
+(* wherever ScatterAllDynamic.check accepts: for every runtime shape the (truthful) annotations denote, with n the extent
+   that Gather(Shape(data), axis) reads at run time, the transposed data having n' = tshape[0] rows and `updates` one row per
+   index row (the ScatterND shape rule), the scatter over Range(0, n) returns `updates` *)
+Theorem scatter_all_dynamic_sound : forall (A : Type) val ds ts a (dsh tsh : list Z) n (tdata upd : list A),
+  da_check (Some ds) (Some ts) (Some a) = Fire ->
+  Forall2 (dim_denotes val) ds dsh -> Forall2 (dim_denotes val) ts tsh ->
+  py_index dsh a = Some n ->
+  hd_error tsh = Some (Z.of_nat (length tdata)) ->
+  length upd = Z.to_nat n ->
+  scatter take_update tdata (full_range n) upd = upd.
+Proof.
+  intros A val ds ts a dsh tsh n tdata upd Hc Hd Ht Hn Hrows Hupd. unfold da_check in Hc.
+  destruct (py_index ds a) as [d|] eqn:Ep; [|discriminate].
+  destruct ts as [|t0 ts]; [discriminate|]. destruct (dim_eqb d t0) eqn:Ee; [|discriminate].
+  destruct (py_index_denotes val ds dsh a d Hd Ep) as (x & Hx & Hdx). rewrite Hn in Hx. inversion Hx; subst x.
+  inversion Ht as [|? y ? tsh' Hty Htl]; subst. cbn in Hrows. inversion Hrows; subst y.
+  pose proof (dim_eqb_denotes val d t0 n _ Ee Hdx Hty) as Hnn.
+  unfold full_range. rewrite <- Hupd. apply scatter_all_static_sound. rewrite Hupd, Hnn. now rewrite Nat2Z.id.
+Qed.
+
+(* near misses: the first dimension of the transposed data is another axis of data => the scatter keeps rows of data *)
+Theorem scatter_all_dynamic_near_miss :
+  da_check (Some [St 2; St 3]) (Some [St 3; St 2]) (Some 0%Z) = NoFire /\
+  da_check (Some [Sy 0; St 3]) (Some [Sy 1; St 3]) (Some 0%Z) = NoFire /\
+  da_check (Some [Un; St 3]) (Some [Un; St 3]) (Some 0%Z) = NoFire /\
+  da_check (Some [St 2; St 3]) (Some [St 3; St 2]) None = NoFire /\
+  da_check None (Some [St 3; St 2]) (Some 1%Z) = NoFire /\ da_check (Some [St 2; St 3]) None (Some 1%Z) = NoFire /\
+  scatter take_update [10; 20; 30]%Z (full_range 2) [1; 2]%Z <> [1; 2]%Z.
+Proof. repeat split; vm_compute; try reflexivity; discriminate. Qed.
+
+Example da_example :
+  da_check (Some [St 2; St 3]) (Some [St 3; St 2]) (Some 1%Z) = Fire /\
+  da_check (Some [St 2; Sy 4]) (Some [Sy 4; St 2]) (Some (-1)%Z) = Fire /\
+  da_check (Some [St 2; St 3]) (Some [St 3; St 2]) (Some 2%Z) = Raises /\
+  scatter take_update [10; 20; 30]%Z (full_range 3) [1; 2; 3]%Z = [1; 2; 3]%Z.
+Proof. repeat split; reflexivity. Qed.
